@@ -847,13 +847,13 @@ pub fn property() -> Property {
     s.push(sc!("invert_native-f64", "f64", invert_native_f64, 6000, 400_000, 64, NAT, "every generated matrix; determinant classes ordinary / subnormal / underflowed to zero / huge required", false));
     s.push(sc!("invert_native-f32", "f32", invert_native_f32, 6000, 400_000, 64, NAT, "every generated matrix; determinant classes ordinary / subnormal / underflowed to zero / huge required", false));
     const SNG: &[(&str, u32)] = &[("2x2-rows", 100), ("2x2-columns", 100), ("3x3", 200)];
-    s.push(sc!("singular_native-f64", "f64", singular_native_f64, 4000, 300_000, 48, SNG, "every generated matrix (one column an exact power-of-two multiple of another; generic inexact entries)", false));
-    s.push(sc!("singular_native-f32", "f32", singular_native_f32, 4000, 300_000, 48, SNG, "every generated matrix (one column an exact power-of-two multiple of another; generic inexact entries)", false));
+    s.push(sc!("singular_native-f64", "f64", singular_native_f64, 4000, 300_000, 72, SNG, "every generated matrix (one column an exact power-of-two multiple of another; generic inexact entries)", false));
+    s.push(sc!("singular_native-f32", "f32", singular_native_f32, 4000, 300_000, 72, SNG, "every generated matrix (one column an exact power-of-two multiple of another; generic inexact entries)", false));
     const ILL: &[(&str, u32)] = &[("2x2", 200), ("3x3", 200), ("4x4", 200)];
     s.push(sc!("illconditioned_native-f64", "f64", illconditioned_native_f64, 4000, 300_000, 32, ILL, "every generated matrix (permuted direct sums of [[a,a-1],[a+1,a]] and ones)", false));
     s.push(sc!("illconditioned_native-f32", "f32", illconditioned_native_f32, 4000, 300_000, 32, ILL, "every generated matrix (permuted direct sums of [[a,a-1],[a+1,a]] and ones)", false));
     s.push(sc!("transpose_native-f64", "f64", transpose_native_f64, 4000, 300_000, 96, &[("symmetric", 100), ("symmetric-up-to-sign-of-zero", 100), ("symmetric-up-to-an-ulp", 100), ("tiny", 100), ("generic-with-signed-zeros", 100)], "every generated matrix", false));
-    s.push(sc!("invert_scaled-f64", "f64", invert_scaled_f64, 4000, 300_000, 64, ILL, "every generated matrix (a diagonally dominant B with rows and columns scaled by 2^-60..2^60)", false));
+    s.push(sc!("invert_scaled-f64", "f64", invert_scaled_f64, 4000, 300_000, 96, ILL, "every generated matrix (a diagonally dominant B with rows and columns scaled by 2^-60..2^60)", false));
     const WIDE: &[(&str, u32)] = &[("2x2-wide", 150), ("3x3-wide", 100), ("3x3-subnormal-cofactors", 100)];
     s.push(sc!("invert_wide-f64", "f64", invert_wide_f64, 4000, 300_000, 64, WIDE, "every generated matrix (a strongly diagonally dominant B with rows and columns scaled by powers of two over the whole exponent range)", false));
     s.push(sc!("invert_wide-f32", "f32", invert_wide_f32, 4000, 300_000, 64, WIDE, "every generated matrix (a strongly diagonally dominant B with rows and columns scaled by powers of two over the whole exponent range)", false));
